@@ -59,6 +59,55 @@ func forestContainment(nl *sbom.NodeList) (parent map[string]string, ok bool) {
 	return parent, true
 }
 
+// spdxRelName: the SPDX 2.3 relationship name (spec section 11.1) of each edge type, written out here so
+// that the output is judged against the specification's vocabulary and not against the library's own rendering.
+var spdxRelName = map[sbom.Edge_Type]string{
+	sbom.Edge_amends: "AMENDS",
+	sbom.Edge_ancestor: "ANCESTOR_OF",
+	sbom.Edge_buildDependency: "BUILD_DEPENDENCY_OF",
+	sbom.Edge_buildTool: "BUILD_TOOL_OF",
+	sbom.Edge_contains: "CONTAINS",
+	sbom.Edge_contained_by: "CONTAINED_BY",
+	sbom.Edge_copy: "COPY_OF",
+	sbom.Edge_dataFile: "DATA_FILE_OF",
+	sbom.Edge_dependencyManifest: "DEPENDENCY_MANIFEST_OF",
+	sbom.Edge_dependsOn: "DEPENDS_ON",
+	sbom.Edge_dependencyOf: "DEPENDENCY_OF",
+	sbom.Edge_descendant: "DESCENDANT_OF",
+	sbom.Edge_describes: "DESCRIBES",
+	sbom.Edge_describedBy: "DESCRIBED_BY",
+	sbom.Edge_devDependency: "DEV_DEPENDENCY_OF",
+	sbom.Edge_devTool: "DEV_TOOL_OF",
+	sbom.Edge_distributionArtifact: "DISTRIBUTION_ARTIFACT",
+	sbom.Edge_documentation: "DOCUMENTATION_OF",
+	sbom.Edge_dynamicLink: "DYNAMIC_LINK",
+	sbom.Edge_example: "EXAMPLE_OF",
+	sbom.Edge_expandedFromArchive: "EXPANDED_FROM_ARCHIVE",
+	sbom.Edge_fileAdded: "FILE_ADDED",
+	sbom.Edge_fileDeleted: "FILE_DELETED",
+	sbom.Edge_fileModified: "FILE_MODIFIED",
+	sbom.Edge_generates: "GENERATES",
+	sbom.Edge_generatedFrom: "GENERATED_FROM",
+	sbom.Edge_metafile: "METAFILE_OF",
+	sbom.Edge_optionalComponent: "OPTIONAL_COMPONENT_OF",
+	sbom.Edge_optionalDependency: "OPTIONAL_DEPENDENCY_OF",
+	sbom.Edge_other: "OTHER",
+	sbom.Edge_packages: "PACKAGE_OF",
+	sbom.Edge_patch: "PATCH_APPLIED",
+	sbom.Edge_prerequisite: "HAS_PREREQUISITE",
+	sbom.Edge_prerequisiteFor: "PREREQUISITE_FOR",
+	sbom.Edge_providedDependency: "PROVIDED_DEPENDENCY_OF",
+	sbom.Edge_requirementFor: "REQUIREMENT_DESCRIPTION_FOR",
+	sbom.Edge_runtimeDependency: "RUNTIME_DEPENDENCY_OF",
+	sbom.Edge_specificationFor: "SPECIFICATION_FOR",
+	sbom.Edge_staticLink: "STATIC_LINK",
+	sbom.Edge_test: "TEST_OF",
+	sbom.Edge_testCase: "TEST_CASE_OF",
+	sbom.Edge_testDependency: "TEST_DEPENDENCY_OF",
+	sbom.Edge_testTool: "TEST_TOOL_OF",
+	sbom.Edge_variant: "VARIANT_OF",
+}
+
 // checkSPDXOutput: the C03 statement on SPDX writer output decoded with encoding/json only.
 func checkSPDXOutput(d *sbom.Document, out []byte) string {
 	var j struct {
@@ -113,7 +162,7 @@ func checkSPDXOutput(d *sbom.Document, out []byte) string {
 	}
 	for _, e := range d.NodeList.Edges {
 		for _, to := range e.To {
-			k := spdxRef(e.From) + "|" + e.Type.ToSPDX2() + "|" + spdxRef(to)
+			k := spdxRef(e.From) + "|" + spdxRelName[e.Type] + "|" + spdxRef(to)
 			if !rels[k] {
 				return "edge not in the output: " + k
 			}
